@@ -20,6 +20,8 @@ READ_API = ["head", "tail", "header_head", "head_header", "get_block", "get_bloc
 
 
 def run(c):
+    import r9
+    c.r9("C17")
     LA = r5.LockAnalysis(c, CRATES)
     edges, reent = LA.order_edges()
     c.stats["lock_classes"] = len(LA.acq_sites)
